@@ -97,6 +97,9 @@ func SetupServer(credentials []settings.Credentials, region string, apiEndpoint 
 		rootHandler = authentication.MakeSignatureMiddleware(authCreds, region, rootHandler)
 	} else {
 		slog.Warn("Authentication is disabled, this is not recommended for production use")
+		// Without the signature middleware nobody would remove the aws-chunked
+		// framing SDK clients wrap uploads in.
+		rootHandler = authentication.MakeAwsChunkedDecodingMiddleware(rootHandler)
 	}
 	rootHandler = httpmiddleware.MakeRequestContextMiddleware(rootHandler)
 
